@@ -6,7 +6,7 @@ cd "$(dirname "$0")/.."
 WT=/tmp/seed_all
 git -C /repo worktree remove --force $WT 2>/dev/null
 git -C /repo worktree add -q --detach $WT HEAD || exit 2
-for d in seeded/*_[mnkqvw]*/; do
+for d in seeded/${ONLY:-*}_[mnkqvw]*/; do
   name=$(basename $d); pid=${name%%_*}
   ( cd $WT && git checkout -q -- . && git apply /verif/$d/patch.diff ) || { echo "$name APPLY-FAILED"; continue; }
   t0=$(date +%s)
